@@ -82,6 +82,20 @@ impl C11 {
                 label_node.insert(l.clone(), n.idx);
             }
         }
+        // a called label that the text defines in front of an instruction must stand on some node
+        for l in &called {
+            let defined_before_code = case.lines.iter().enumerate().any(|(k, x)| {
+                matches!(x, Line::Label(n) if n == l) && case.lines[k + 1..].iter().any(|y| matches!(y, Line::Ins(_)))
+            });
+            if defined_before_code && !label_node.contains_key(l) {
+                out.push(
+                    Violation::new(format!("the called label {l} is defined in front of code but stands on no node of the graph\n{text}"))
+                        .with("clause", "function-set")
+                        .with("what", "called-label-on-no-node"),
+                );
+                return out;
+            }
+        }
         let want_entries: BTreeSet<usize> = called.iter().filter_map(|l| label_node.get(l).copied()).collect();
         let got_entries: BTreeSet<usize> = cfg.functions.iter().map(|f| f.entry).collect();
         ctx.fact("function_sets_compared", 1);
